@@ -575,6 +575,14 @@ class Oracle:
                                                         (s - pm.generation_time / 1e6) if side == "before" else (pm.generation_time / 1e6 - e)))
         elif side == "boundary":
             sim.probe("success:gen-boundary-unjudged")
+        if "requestedCertificate" in (pm.header or {}):
+            # Appendix A item 15 (C05's subject, only counted here): is a requested CA certificate ever learnt?
+            sim.probe("requested-cert:in-accepted-message")
+            try:
+                if sc.hashed_id8(pm.header["requestedCertificate"]) in sim.store("aa"):
+                    sim.probe("requested-cert:present-in-aa-store")
+            except sc.Undecodable:
+                pass
         vm = sc.verify_signed_message(enc, ticket)
         if vm.mode is not None:
             sim.probe("success:independent-agrees")
